@@ -6,6 +6,7 @@ _UNIT_MODULES = [
     "units.u_constrain.unit",
     "units.u_resolver.unit",
     "units.u_bitvec.unit",
+    "units.u_output.unit",
 ]
 
 UNITS = {}
@@ -20,13 +21,13 @@ REPORT_TB = ["ASSUMED contracts of diagn::Report methods (units/contracts_report
 RESOLVER_TB = ["ASSUMED contracts of unverified customasm code used by U-resolver/U-iterate: asm::resolver::eval / eval_certain ('Err is loud, Ok is clean'), resolve_constant / resolve_instruction / resolve_data_element (the per-item pass contract), ResolveIterator::new/next (flags copied; the yielded node refers to defined items), Value::expect_error_or_bigint / expect_bool, DefList::get_mut (frame), derived PartialEq of expr::Value",
                "ghost event `ItemDefs::confirmed()` is produced only by resolve_once's stub clause [confirms] (a name for 'a no-guess pass answered Resolved'); termination of resolve_once's loop is not proved"]
 
-ALL_UNITS = ["U-overlap", "U-bigint", "U-constrain", "U-resolver", "U-iterate"]
+ALL_UNITS = ["U-overlap", "U-bigint", "U-constrain", "U-resolver", "U-iterate", "U-bitvec", "U-output"]
 
 PROPERTIES = {
     "C01": {
-        "units": ["U-resolver"],
-        "claim": "Address bookkeeping, for all inputs: eval_address/get_address return addr_start + position / addr_unit, and a position that is not a whole number of addresses is rejected when guessing is forbidden; advance_address moves only the current bank, by exactly the size of the item before (instruction / data element / #res), to the next multiple for #align, and to (address - addr_start) * addr_unit for #addr; bits_until_alignment returns the least non-negative distance; resolve_label stores exactly the address of what follows; every defined bank has a positive address unit (proved at bankdef::define).",
-        "not_reached": "rule matching, argument evaluation, choice of the smallest encoding (resolve_encoding), parsing, data-directive evaluation, build_output (units pending: U-bitvec/U-output)",
+        "units": ["U-resolver", "U-bitvec"],
+        "claim": "Address bookkeeping, for all inputs: eval_address/get_address return addr_start + position / addr_unit, and a position that is not a whole number of addresses is rejected when guessing is forbidden; advance_address moves only the current bank, by exactly the size of the item before (instruction / data element / #res), to the next multiple for #align, and to (address - addr_start) * addr_unit for #addr; bits_until_alignment returns the least non-negative distance; resolve_label stores exactly the address of what follows; every defined bank has a positive address unit (proved at bankdef::define). BitVec::write_bigint writes a sized value MSB-first at [index, index+size) and changes no other bit.",
+        "not_reached": "rule matching, argument evaluation, choice of the smallest encoding (resolve_encoding), parsing, data-directive evaluation, the loop of build_output that ties the checked pieces together",
         "trusted_base": NUMBIGINT_TB + REPORT_TB + RESOLVER_TB,
     },
     "C02": {
@@ -41,6 +42,18 @@ PROPERTIES = {
         "not_reached": "totality over all input texts (tokenizer, parser, matcher, evaluator are outside the verified set), process exit status, files written, I/O faults, assemble()'s closure and the driver",
         "trusted_base": NUMBIGINT_TB + REPORT_TB + RESOLVER_TB,
     },
+    "C11": {
+        "units": ["U-bitvec"],
+        "claim": "Bit-store layer only: BitVec::read_bit returns bit i of the store and false at or beyond len (representation invariant wf, preserved by every write); BitVec::to_bigint is the MSB-first value of exactly len bits.",
+        "not_reached": "the text produced by every formatter (format_binary, hex/bin strings, dumps, MIF, Intel HEX, separators, C arrays, Logisim): U-format pending; get_blocks (sort_by)",
+        "trusted_base": NUMBIGINT_TB,
+    },
+    "C12": {
+        "units": ["U-bitvec"],
+        "claim": "BitVec::write_bigint_with_span / mark_span append exactly one span record (offset, size, address, source span) per emitted item, and for written items the bits at [offset, offset+size) are the item's value MSB-first.",
+        "not_reached": "the listing and symbol-table text (format_annotated, format_tcgame, format_addrspan, symbol_format): String/format! code; ordering of rows (sort_by)",
+        "trusted_base": NUMBIGINT_TB,
+    },
     "C09": {
         "units": ["U-iterate", "U-resolver"],
         "claim": "For every budget >= 1: the number of passes resolve_iteratively reports lies in [1, budget]; a Resolved pass on the last allowed iteration is itself the confirming pass; assertions are evaluated only in a last pass.",
@@ -49,7 +62,7 @@ PROPERTIES = {
     },
     "C19": {
         "units": ALL_UNITS,
-        "claim": "Machine-word arithmetic is not treated as mathematical: every usize/u64 operation in the verified set carries an overflow obligation, all discharged except the listed known findings D9a-D9d (unchecked position arithmetic). Proved limits: checked_add/sub/mul/shl never yield more than BIGINT_MAX_BITS bits and fail loudly beyond the cap; checked_into/expect_usize/expect_nonzero_usize are exact and total on their range.",
+        "claim": "Machine-word arithmetic is not treated as mathematical: every usize/u64 operation in the verified set carries an overflow obligation, all discharged except the listed known findings D9a-D9f (unchecked position arithmetic). Proved limits: checked_add/sub/mul/shl never yield more than BIGINT_MAX_BITS bits and fail loudly beyond the cap; checked_into/expect_usize/expect_nonzero_usize are exact and total on their range.",
         "not_reached": "stack depth and recursion limits of the parser/evaluator (check_recursion_limit lives in string/closure code), time and memory bounds",
         "trusted_base": NUMBIGINT_TB + REPORT_TB + RESOLVER_TB,
     },
@@ -66,10 +79,10 @@ PROPERTIES = {
         "trusted_base": NUMBIGINT_TB + REPORT_TB,
     },
     "C06": {
-        "units": ["U-overlap"],
-        "claim": "OverlapChecker::check_and_insert: Ok implies the new (position,size) shares no output bit with any stored entry, the entry list stays ordered/disjoint and is changed by exactly one insertion; Err leaves it unchanged and pushes a message; an entry is rejected only if it touches a stored one.",
-        "not_reached": "bank window checks, fill, address arithmetic (units pending)",
-        "trusted_base": REPORT_TB + ["ASSUMED spec of <[T]>::binary_search_by (phrased through the closure's contract)"],
+        "units": ["U-overlap", "U-output", "U-bitvec", "U-resolver"],
+        "claim": "check_bank_overlap: Ok implies no two bank output windows share a bit (an unsized bank extends to infinity); check_bank_output: Ok implies position + size lies inside a sized bank and a written item's bank has an output offset, and it rejects only such violations; check_bank_usage: the default bank is usable only while it is the only bank; get_output_position = outp + position; fill_banks sets no bit and extends the output to the end of every filled bank; BitVec writes change exactly the addressed bits, so every bit not written is zero and len is the maximum end of writes; misaligned labels are rejected (eval_address). OverlapChecker::check_and_insert: Ok implies the new (position,size) shares no output bit with any stored entry, the entry list stays ordered/disjoint and is changed by exactly one insertion; Err leaves it unchanged and pushes a message; an entry is rejected only if it touches a stored one.",
+        "not_reached": "the loop of build_output that applies usage-check, window-check, overlap-check and write to every item (AST-typed glue, not verified); bank definition parsing",
+        "trusted_base": REPORT_TB + NUMBIGINT_TB + RESOLVER_TB + ["ASSUMED spec of <[T]>::binary_search_by (phrased through the closure's contract)", "check_bank_output's precondition position + size <= usize::MAX is not checked at its (unverified) call sites"],
     },
 }
 
